@@ -89,6 +89,41 @@ pub fn parse_cases(a: &HashMap<String, String>) -> i32 {
         let mat = lines_of(&files["matrix"], " ", fin("matrix"));
         let lex = lines_of(&files["lex"], ",", fin("lex"));
         let unk = lines_of(&files["unk"], ",", fin("unk"));
+        if v["bigram"].as_bool().unwrap_or(false) {
+            // bigram.right/left: id TAB f,f,...   bigram.cost: rf/lf TAB cost
+            let idrows = |x: &Value, fin: bool| -> String {
+                let ls = x.as_array().cloned().unwrap_or_default();
+                let mut out = String::new();
+                for (i, l) in ls.iter().enumerate() {
+                    let t: Vec<String> = l.as_array().map(|a| a.iter().map(|t| t.as_str().unwrap_or("").to_string()).collect()).unwrap_or_default();
+                    out.push_str(&match t.len() { 0 => String::new(), 1 => t[0].clone(), _ => format!("{}\t{}", t[0], t[1..].join(",")) });
+                    if i + 1 < ls.len() || fin {
+                        out.push('\n');
+                    }
+                }
+                out
+            };
+            let costrows = |x: &Value, fin: bool| -> String {
+                let ls = x.as_array().cloned().unwrap_or_default();
+                let mut out = String::new();
+                for (i, l) in ls.iter().enumerate() {
+                    let t: Vec<String> = l.as_array().map(|a| a.iter().map(|t| t.as_str().unwrap_or("").to_string()).collect()).unwrap_or_default();
+                    out.push_str(&match t.len() { 0 => String::new(), 1 => t[0].clone(), 2 => format!("{}/{}", t[0], t[1]), _ => format!("{}/{}\t{}", t[0], t[1], t[2..].join("\t")) });
+                    if i + 1 < ls.len() || fin {
+                        out.push('\n');
+                    }
+                }
+                out
+            };
+            let (br, bl, bc) = (idrows(&files["right"], fin("right")), idrows(&files["left"], fin("left")), costrows(&files["cost"], fin("cost")));
+            for dual in [false, true] {
+                let r = catch_unwind(AssertUnwindSafe(|| SystemDictionaryBuilder::from_readers_with_bigram_info(
+                    lex.as_bytes(), br.as_bytes(), bl.as_bytes(), bc.as_bytes(), chr.as_bytes(), unk.as_bytes(), dual)));
+                let ev = outcome_event(v["class"].as_str().unwrap_or("DONT_CARE"), json!({"edit": v["edit"], "dual": dual}), r);
+                writeln!(f, "{}", ev).unwrap();
+            }
+            continue;
+        }
         let r = catch_unwind(AssertUnwindSafe(|| SystemDictionaryBuilder::from_readers(lex.as_bytes(), mat.as_bytes(), chr.as_bytes(), unk.as_bytes())));
         let ev = outcome_event(v["class"].as_str().unwrap_or("DONT_CARE"), json!({"edit": v["edit"], "edit2": v["edit2"]}), r);
         writeln!(f, "{}", ev).unwrap();
